@@ -1,36 +1,47 @@
-"""tools/seedrun.py Cxx [Cyy …] : verify the seeded changes delivered under /tmp/seed_out/<id>/{A,B}
-(patch.diff, demo.py, notes.md), run the property's check against each, and keep the confirmed ones
-as /verif/seeded/<id>-<X>/ with meta.json."""
-import json, os, shutil, subprocess, sys
+"""tools/seedrun.py [Cxx | Cxx-A …]   (no argument = every kept seed)
+
+Re-verify kept seeded changes (seeded/<id>/: patch.diff, demo.py, notes.md) and run the property's check against
+each in a scratch worktree of /repo (tools/seedtest.sh); meta.json is rewritten with what happened.
+To import a NEW seed: SEED_SRC=<dir with Cxx/{A,B}/…> SEED_NAMES=EF tools/seedrun.py --import Cxx …"""
+import glob, json, os, shutil, subprocess, sys
 VERIF = os.path.dirname(os.path.dirname(os.path.abspath(__file__)))
-SRC = os.environ.get("SEED_SRC", "/tmp/seed_out")
-NAMES = dict(zip("AB", os.environ.get("SEED_NAMES", "AB")))
-for pid in sys.argv[1:]:
-    for x in ("A", "B"):
-        d = "%s/%s/%s" % (SRC, pid, x)
-        if not os.path.exists(d + "/patch.diff"):
-            print(pid, x, "missing"); continue
-        r = subprocess.run([VERIF + "/tools/seedtest.sh", pid, d], capture_output=True, text=True)
-        line = [l for l in r.stdout.splitlines() if l.startswith("{")]
-        if not line:
-            print(pid, x, "seedtest failed:", r.stdout[-300:], r.stderr[-300:]); continue
-        meta = json.loads(line[-1])
-        confirmed = meta.get("applies") and meta["suite_rc"] == 0 and meta["demo_clean_rc"] == 0 and meta["demo_mutated_rc"] != 0
-        meta["confirmed"] = bool(confirmed)
-        meta["caught"] = meta.get("check_rc") == 1
-        notes = open(d + "/notes.md").read() if os.path.exists(d + "/notes.md") else ""
-        meta["property"] = pid
-        meta["needs_to_manifest"] = notes[:1500]
-        meta["ran"] = ["git apply patch.diff in a scratch worktree of /repo main",
-                       "/venv/bin/python -m pytest -q -p no:cacheprovider dali/tests  (must pass)",
-                       "demo.py on clean tree (exit 0) and on the changed tree (exit != 0)",
-                       "VERIF_REPO=<worktree> ./check %s" % pid]
-        print(pid, x, "confirmed" if confirmed else "NOT-CONFIRMED", "caught" if meta["caught"] else "MISSED rc=%s" % meta.get("check_rc"),
-              meta.get("violation", "")[:110])
-        if confirmed:
-            out = "%s/seeded/%s-%s" % (VERIF, pid, NAMES[x])
-            os.makedirs(out, exist_ok=True)
-            for f in ("patch.diff", "demo.py", "notes.md", "check_output.txt"):
-                if os.path.exists(d + "/" + f):
-                    shutil.copy(d + "/" + f, out + "/" + f)
-            json.dump(meta, open(out + "/meta.json", "w"), indent=1)
+args = sys.argv[1:]
+if args and args[0] == "--import":
+    src = os.environ["SEED_SRC"]
+    names = dict(zip("AB", os.environ.get("SEED_NAMES", "AB")))
+    for pid in args[1:]:
+        for x in "AB":
+            d = "%s/%s/%s" % (src, pid, x)
+            if os.path.exists(d + "/patch.diff"):
+                out = "%s/seeded/%s-%s" % (VERIF, pid, names[x])
+                os.makedirs(out, exist_ok=True)
+                for f in ("patch.diff", "demo.py", "notes.md"):
+                    if os.path.exists(d + "/" + f):
+                        shutil.copy(d + "/" + f, out + "/" + f)
+    args = [a for a in args[1:]]
+dirs = []
+for d in sorted(glob.glob(VERIF + "/seeded/*")):
+    name = os.path.basename(d)
+    if not args or name in args or name.split("-")[0] in args:
+        dirs.append(d)
+for d in dirs:
+    name = os.path.basename(d)
+    pid = name.split("-")[0]
+    r = subprocess.run([VERIF + "/tools/seedtest.sh", pid, d], capture_output=True, text=True)
+    line = [l for l in r.stdout.splitlines() if l.startswith("{")]
+    if not line:
+        print(name, "seedtest failed:", r.stdout[-300:], r.stderr[-300:]); continue
+    meta = json.loads(line[-1])
+    confirmed = meta.get("applies") and meta["suite_rc"] == 0 and meta["demo_clean_rc"] == 0 and meta["demo_mutated_rc"] != 0
+    meta["confirmed"] = bool(confirmed)
+    meta["caught"] = meta.get("check_rc") == 1
+    notes = open(d + "/notes.md").read() if os.path.exists(d + "/notes.md") else ""
+    meta["property"] = pid
+    meta["needs_to_manifest"] = notes[:1500]
+    meta["ran"] = ["git apply patch.diff in a scratch worktree of /repo main",
+                   "/venv/bin/python -m pytest -q -p no:cacheprovider dali/tests  (must pass)",
+                   "demo.py on clean tree (exit 0) and on the changed tree (exit != 0)",
+                   "VERIF_REPO=<worktree> ./check %s" % pid]
+    json.dump(meta, open(d + "/meta.json", "w"), indent=1)
+    print(name, "confirmed" if confirmed else "NOT-CONFIRMED", "caught" if meta["caught"] else "MISSED rc=%s" % meta.get("check_rc"),
+          meta.get("violation", "")[:110], flush=True)
